@@ -340,6 +340,7 @@ func genC01(seed int64, tier string) *Scenario {
 		wsFolders["d0"], wsFolders["nosuch"] = true, true
 	}
 	sc.FirstCfg = r.Intn(2) == 0
+	sc.Eager = r.Intn(4) == 0 // the client goes on right after `initialized`
 	faulty := r.Intn(3) == 0
 	sc.Knobs["faulty"] = faulty
 
